@@ -709,6 +709,10 @@ def _sigclass(s):
 # ----------------------------------------------------------------------------------------------
 def shrink_candidates(trace):
     cfg = trace['cfg']
+    # wrappers are named by pool position: a wrap that cannot simply be dropped is neutralised (a plain kwargs_support of f0)
+    for k, op in enumerate(trace['ops']):
+        if op['op'] == 'wrap' and (op['src'] != ['f', 0] or op['dec'] != {'t': 'kws'}):
+            t = _copy.deepcopy(trace); t['ops'][k] = {'op': 'wrap', 'src': ['f', 0], 'dec': {'t': 'kws'}}; yield t
     for k, op in enumerate(trace['ops']):
         if op['op'] in ('call', 'callargs'):
             for key in ('extra', 'kw'):
@@ -741,6 +745,9 @@ def shrink_candidates(trace):
 def size(trace):
     s = 0
     for op in trace['ops']:
+        if op['op'] == 'wrap' and op['src'] == ['f', 0] and op['dec'] == {'t': 'kws'}:
+            s += 2
+            continue
         s += 20 + 3 * (len(op.get('pos', [])) + len(op.get('kw', [])) + len(op.get('extra', []))) + len(repr(op.get('dec', ''))) // 8
         s += sum(1 for v in op.get('pos', []) if v != 1) + sum(1 for _, v in op.get('kw', []) if v != 1)
     for f in trace['cfg']['funcs']:
